@@ -20,9 +20,9 @@ func init() {
 		o.exprOfAssign(funcSpec{dir: d, recv: "PatchSet", name: "Add", coqName: "add_new_combo",
 			params: "(last_new new_len : Z)", retType: "Z", leaves: addLeaves}, "newCombo", 0)
 		o.condOf(funcSpec{dir: d, recv: "PatchSet", name: "Add", coqName: "add_coalesce_cond",
-			params: "(offset last_end old_combo new_combo : Z)", retType: "bool", leaves: addLeaves}, "lastEnd")
+			params: "(offset last_end old_combo new_combo old_size new_len last_off last_old last_new : Z)", retType: "bool", leaves: addLeaves}, "if:lastEnd")
 		o.condOf(funcSpec{dir: d, recv: "PatchSet", name: "Add", coqName: "add_split_cond",
-			params: "(old_size : Z)", retType: "bool", leaves: addLeaves}, "oldSize", 0)
+			params: "(old_size : Z)", retType: "bool", leaves: addLeaves}, "for:oldSize", 0)
 		o.condOf(funcSpec{dir: d, recv: "", name: "Load", coqName: "load_version_bad",
 			params: "(version : Z)", retType: "bool", leaves: map[string]string{"h.Version": "version"}}, "h.Version")
 		apLeaves := map[string]string{
